@@ -90,15 +90,26 @@ theorem run_variant_returns_function_result (s : St) (h : Reachable s) (i : Nat)
     cases hc : it.cur <;> simp_all [recoverRet, Outcome.isPanic]
 
 /-- API requests: a handler function that panics before it has written anything is answered with status 500,
-    and the surrounding RunWorker returns nil (the handler-level recover has already dealt with the panic). -/
-theorem api_panic_answers_500 (s : St) (h : Reachable s) (i : Nat) (it : Item) (v : PCls)
-    (hit : s.items[i]? = some it) (hk : it.kind = .api false) (hd : it.done = true) (hp : it.cur = .panic v) :
-    it.http = 500 ∧ it.ret = some .nil := by
+    and the surrounding RunWorker returns nil (the handler-level recover has already dealt with the panic) —
+    with dev mode off (plain page) and on (page with the panic value and the stack trace). -/
+theorem api_panic_answers_500 (s : St) (h : Reachable s) (i : Nat) (it : Item) (v : PCls) (dev : Bool)
+    (hit : s.items[i]? = some it) (hk : it.kind = .api false dev) (hd : it.done = true) (hp : it.cur = .panic v) :
+    it.http = 500 ∧ it.ret = some .nil ∧ it.detail = dev := by
   have hl := (reachable_inv h).loc i it hit
   have hpc : it.pc = 5 := by simpa [Item.done, hk] using hd
-  have := hl.api false hk (by omega)
+  have := hl.api false dev hk (by omega)
   rw [hp] at this
-  simpa [httpStatus] using this.symm
+  simp [httpStatus, Outcome.isPanic] at this
+  exact ⟨this.2.1, this.1, this.2.2⟩
+
+/-- API requests: the handler-level recover reports the panic through the module error channel — with the value
+    `recover()` delivered, type "custom" — in both branches of its `if devMode()`, before it answers. -/
+theorem api_panic_is_reported_in_every_mode (env : Env) (it : Item) (aw dev : Bool) (v : PCls)
+    (hk : it.kind = .api aw dev) (hp : it.pc = 2) (hc : it.cur = .panic v) :
+    ∃ it', itemStep env it false = some (it', { rep := some (panicReport .custom v) }) ∧
+      it'.reps = it.reps + 1 ∧ it'.ret = some .nil ∧ it'.http = (if aw then 202 else 500) ∧ it'.detail = dev := by
+  cases dev <;>
+    simp [itemStep, workerStep, hk, hp, hc, recovered_ne_nil, httpStatus]
 
 /-- Reported once: when all items have finished, the number of reports handed to `Report()` — delivered on
     the error channel or dropped because it was full — equals the number of panics raised, over all items,
@@ -127,13 +138,16 @@ theorem every_panic_delivered_when_channel_has_room (s : St) (h : Reachable s) (
 
 /-- The source has the shape the model is written over (regenerated from /repo on every run): `ModuleError`
     declares none of `Unwrap` / `Is` / `As`; the switch of `runServiceWorker` has exactly these cases in this
-    order; `Report()` takes the lock, sets `lastReportedError`, and sends with `select { case ch <- me: default: }`. -/
+    order; `Report()` takes the lock, sets `lastReportedError`, and sends with `select { case ch <- me: default: }`; the
+    handler-level recover of the API creates and reports the panic error first and answers — dev-mode page or plain
+    page, both 500 — afterwards. -/
 theorem source_shape :
     PB.Gen.Managed.moduleErrorChainMethods = [] ∧
     PB.Gen.Managed.svcSwitch = [("err == nil", "return"), ("errors.Is(err, context.Canceled)", "return"),
       ("errors.Is(err, ErrRestartNow)", "loop"), ("default", "backoff")] ∧
     PB.Gen.Managed.reportSend = "select-default" ∧
-    PB.Gen.Managed.reportSeq = ["lock", "defer unlock", "last = me", "send", "stderr"] := by
+    PB.Gen.Managed.reportSeq = ["lock", "defer unlock", "last = me", "send", "stderr"] ∧
+    PB.Gen.Managed.apiRecoverSeq = ["new", "report", "if devMode { respond 500 detail } else { respond 500 plain }"] := by
   decide
 
 /-- The report step, whatever the state of the channel (unset; capacity 0, 1, n; full; consumer reading,
@@ -399,9 +413,11 @@ example :
 
 /-- An API handler that panics: 500, report of type "custom", RunWorker returns nil. -/
 example :
-    (run (St.init 8) ([.spawn { kind := .api false, outs := [.panic .nil] }] ++ List.replicate 5 (.item 0 false))).map
-      (fun s => (s.allDone, s.w, s.feed, s.items.map (fun it => (it.http, it.ret))))
-    = some (true, 0, [⟨.panic, .custom, .nilerr, true⟩], [(500, some .nil)]) := by
+    (run (St.init 8) ([.spawn { kind := .api false false, outs := [.panic .nil] }, .spawn { kind := .api false true, outs := [.panic .errCanceled] }]
+        ++ List.replicate 5 (.item 0 false) ++ List.replicate 5 (.item 1 false))).map
+      (fun s => (s.allDone, s.w, s.feed, s.items.map (fun it => (it.http, it.detail, it.ret))))
+    = some (true, 0, [⟨.panic, .custom, .nilerr, true⟩, ⟨.panic, .custom, .errCanceled, true⟩],
+        [(500, false, some .nil), (500, true, some .nil)]) := by
   rfl
 
 /-- A service worker that panics with `context.Canceled`, with an error wrapping `ErrRestartNow`, and then
